@@ -192,6 +192,19 @@ def _trace_module_source_file(module: str) -> str | None:
             sys.path.pop()
 
 
+def _walk_module_scope(root: ast.Module) -> Iterable[ast.AST]:
+    """Iterate over the nodes that are executed in module scope.
+
+    Statements in the body of a function, lambda or class do not bind module level names.
+    """
+    stack = list(root.body)
+    while stack:
+        node = stack.pop()
+        yield node
+        if not isinstance(node, (ast.FunctionDef, ast.AsyncFunctionDef, ast.ClassDef, ast.Lambda)):
+            stack.extend(ast.iter_child_nodes(node))
+
+
 @functools.lru_cache(maxsize=100_000)
 def trace_origin(name: str, source: str, *, __all__: bool = False) -> _TraceResult | None:
     """Trace the origin of a name in python source code.
@@ -206,9 +219,12 @@ def trace_origin(name: str, source: str, *, __all__: bool = False) -> _TraceResu
         (source, ast, lineno) of the origin of name in source.
     """
     root = core.parse(source)
-    nodes = set(
-        core.walk(
-            root,
+    # Names that are importable from outside the module are bound in module scope.
+    nodes = {
+        node
+        for node in (_walk_module_scope(root) if __all__ else ast.walk(root))
+        if isinstance(
+            node,
             (
                 ast.Import,
                 ast.ImportFrom,
@@ -218,7 +234,7 @@ def trace_origin(name: str, source: str, *, __all__: bool = False) -> _TraceResu
                 ast.Assign,
                 ast.AnnAssign,
                 ast.NamedExpr,
-    ),))
+    ),)}
 
     # Try to figure out what the __all__ variable in source may contain at runtime.
     # The point of this is that, if __all__ is defined, only the names in __all__ are
